@@ -13,14 +13,30 @@ def enumFrom {α : Type} : Nat → List α → List (Nat × α)
   | _, [] => []
   | n, x :: xs => (n, x) :: enumFrom (n + 1) xs
 
+/-- slot specs `order` or, for preparation slots, `order:D<ty>` (the slot writes a blocked verdict of type `ty` into the
+context; the chain must discard it, so the model's slot is the same) -/
 def parseSlots (l : List String) : Except String (List Slot) :=
-  (enumFrom 0 l).mapM (fun (i, s) => do let o ← parseNat "order" s; pure ⟨i, o⟩)
+  (enumFrom 0 l).mapM (fun (i, s) => do let o ← parseNat "order" ((s.splitOn ":").headD ""); pure ⟨i, o⟩)
 
-def parseChecks (l : List String) : Except String (List Check) :=
+/-- check specs `order:R1/R2/...`: the result of the first, second, ... call (the last one repeats) -/
+def parseScripts (l : List String) : Except String (List (Nat × Nat × List Res)) :=
   (enumFrom 0 l).mapM (fun (i, s) =>
     match s.splitOn ":" with
-    | [o, r] => do let o ← parseNat "order" o; let r ← parseRes r; pure ⟨i, o, r⟩
+    | [o, r] => do
+      let o ← parseNat "order" o
+      let rs ← (r.splitOn "/").mapM parseRes
+      if rs.isEmpty then .error s!"bad-op: check spec {s}" else pure (i, o, rs)
     | _ => .error s!"bad-op: check spec {s}")
+
+/-- the check slots as they answer on call number `n` -/
+def checksAt (scripts : List (Nat × Nat × List Res)) (n : Nat) : List Check :=
+  scripts.map (fun (i, o, rs) => ⟨i, o, rs.getD (min n (rs.length - 1)) .pass⟩)
+
+/-- who produced a block error: `slot<i>` = check slot `i`; `pre<i>` = preparation slot `i` (never legitimate; numbered from 1000000) -/
+def parseSrc (s : String) : Option Nat :=
+  if s.startsWith "slot" then (s.drop 4).toString.toNat?
+  else if s.startsWith "pre" then ((s.drop 3).toString.toNat?).map (· + 1000000)
+  else none
 
 def parseEvent (s : String) : Except String Event :=
   if s.startsWith "pre" then do let n ← parseNat "pre" (s.drop 3).toString; pure (.pre n)
@@ -32,8 +48,9 @@ def parseEvent (s : String) : Except String Event :=
     | [i, ty, src] => do
       let i ← parseNat "blk" i
       let ty ← parseNat "ty" ty
-      let src ← parseNat "src" ((src.drop 4).toString)
-      pure (.blk i ty src)
+      match parseSrc src with
+      | some src => pure (.blk i ty src)
+      | none => .error s!"bad-obs: event {s}"
     | _ => .error s!"bad-obs: event {s}"
   else .error s!"bad-obs: event {s}"
 
@@ -53,10 +70,13 @@ def adopt {α : Type} (getId : α → Nat) (added : List α) (ids : List Nat) : 
 
 structure St where
   pres : List Slot := []
-  checks : List Check := []
+  checks : List Check := []            -- as they answer on the current call
+  scripts : List (Nat × Nat × List Res) := []
+  calls : Nat := 0                     -- entries made through this chain so far
   stats : List Slot := []
   chain : Option Chain := none         -- with the order adopted from the first build
   open_ : Option Bool := none          -- some blocked? after build
+  rawBlocked : Option Bool := none     -- verdict of the last `rentry` on the hand-made context
 
 /-- Spec evaluated on the implementation's own observation of `build` (independent of the model). -/
 def specBuild (st : St) (res : String) (log : List Event) : Option String :=
@@ -83,7 +103,7 @@ def specBuild (st : St) (res : String) (log : List Event) : Option String :=
   else
     match res.splitOn ":" with
     | ["blocked", ty, src] =>
-      match ty.toNat?, ((src.drop 4).toString).toNat? with
+      match ty.toNat?, parseSrc src with
       | some ty, some src =>
         if !anyBlocked then some "entry blocked although no check slot blocked"
         else if !(st.checks.any (fun c => c.id == src && c.res == .blocked ty)) then
@@ -112,15 +132,21 @@ def stepCase (st : St) (v : Verdict) (i : Nat) (opText obs : String) : St × Ver
   let op := Op.parse opText
   match op.name with
   | "chain" =>
-    match parseSlots (op.list "pre"), parseChecks (op.list "chk"), parseSlots (op.list "stat") with
-    | .ok p, .ok c, .ok s =>
+    match parseSlots (op.list "pre"), parseScripts (op.list "chk"), parseSlots (op.list "stat") with
+    | .ok p, .ok sc, .ok s =>
+      let c := checksAt sc 0
       let v := v.expect i opText "ok" obs
+      let v := if (op.list "pre").any (fun x => (x.splitOn ":D").length > 1) then v.addTag "dirty-prepare" else v
       let v := if c.any (fun x => x.res.isBlocked) then v.addTag "blocking-check" else v.addTag "no-blocking-check"
       let v := if c.any (fun x => match x.res with | .wait _ => true | _ => false) then v.addTag "wait" else v
       let v := if !(ascending (p.map (·.order)) && ascending (c.map (·.order)) && ascending (s.map (·.order))) then v.addTag "added-unsorted" else v
-      ({ st with pres := p, checks := c, stats := s, chain := none }, v)
+      ({ st with pres := p, checks := c, scripts := sc, calls := 0, stats := s, chain := none, open_ := none, rawBlocked := none }, v)
     | _, _, _ => (st, v.setDiff s!"step={i} bad-op [{opText}]")
-  | "build" =>
+  | "build" | "rentry" =>
+    let raw := op.name == "rentry"
+    let st := { st with checks := checksAt st.scripts st.calls }
+    let st := { st with chain := st.chain.map (fun c => { c with checks := c.checks.map (fun k => match st.checks.find? (fun x => x.id == k.id) with | some x => x | none => k) }) }
+    let v := if raw && st.calls > 0 then v.addTag "context-reused" else v
     let res := obsField obs "res"
     match parseLog (obsField obs "log") with
     | .error e => (st, v.setDiff s!"step={i} {e}")
@@ -141,10 +167,12 @@ def stepCase (st : St) (v : Verdict) (i : Nat) (opText obs : String) : St × Ver
       match chain with
       | none => ({ st with open_ := none }, v.setDiff s!"step={i} op=[build] implementation order is not a sorted permutation of the added slots: [{obs}]")
       | some c =>
-        let (r, mlog) := c.build
+        -- `build` exits a blocked entry itself; a direct `SlotChain::entry` (on a context that may carry the previous verdict) does not
+        let (r, mlog) := if raw then c.entryOn (match st.rawBlocked with | some true => some (0, 0) | _ => none) else c.build
         let v := v.expect i opText s!"res={resStr r} log={logStr mlog}" obs
         let v := if r.isSome then v.addTag "blocked" else v.addTag "passed"
-        ({ st with chain := some c, open_ := some r.isSome }, v)
+        if raw then ({ st with chain := some c, rawBlocked := some r.isSome, calls := st.calls + 1 }, v)
+        else ({ st with chain := some c, open_ := some r.isSome, calls := st.calls + 1 }, v)
   | "exit" =>
     match st.open_, st.chain with
     | some false, some c =>
@@ -154,6 +182,15 @@ def stepCase (st : St) (v : Verdict) (i : Nat) (opText obs : String) : St × Ver
         let v := match specExit st false log with | some m => v.setViol s!"step={i} {m}" | none => v
         let v := v.expect i opText s!"log={logStr (c.exit false)}" obs
         ({ st with open_ := none }, v)
+    | _, _ => (st, v.expect i opText "noentry" obs)
+  | "rexit" =>
+    match st.rawBlocked, st.chain with
+    | some blocked, some c =>
+      match parseLog (obsField obs "log") with
+      | .error e => (st, v.setDiff s!"step={i} {e}")
+      | .ok log =>
+        let v := match specExit st blocked log with | some m => v.setViol s!"step={i} {m}" | none => v
+        (st, v.expect i opText s!"log={logStr (c.exit blocked)}" obs)
     | _, _ => (st, v.expect i opText "noentry" obs)
   | _ => (st, v.setDiff s!"step={i} bad-op [{opText}]")
 
